@@ -19,6 +19,7 @@ type c19Setup struct {
 	w          *world.World
 	x, y, z    world.PodSpec
 	tk, tu     world.PodSpec // pods of a scalable CRD kind / of a kind no CRD describes
+	rg         world.PodSpec // a pod that requests IP ranges
 	zOld       []world.Event
 	dpReserve  bool
 	altConfig  string
@@ -40,6 +41,9 @@ func c19Prepare(w *world.World) *c19Setup {
 	s.tu = world.PodSpec{Name: "f-0", NS: "ns", OwnerKind: "Frob", OwnerName: "f", Policy: "immutable"}
 	w.CreatePod(s.tk)
 	w.CreatePod(s.tu)
+	s.rg = world.PodSpec{Name: "r-0", NS: "ns", OwnerKind: "StatefulSet", OwnerName: "r", Ranges: `[["10.10.1.1~10.10.1.2","10.10.2.1~10.10.2.2"]]`}
+	w.SetStatefulSet("ns", "r", 1)
+	w.CreatePod(s.rg)
 	_, _ = w.Filter(s.tk.Key()) // warms the CRD key cache for the known kind
 	mustSchedule(w, s.z.Key())
 	_, _ = w.Filter(s.y.Key()) // y is filtered, its Bind is one of the concurrent entry points
@@ -60,6 +64,8 @@ func c19Entries(s *c19Setup) map[string]func() {
 		"filter": func() { _, _ = w.Filter(s.x.Key()) },
 		// a filter for the re-created z, whose IP is still held under its key by the old incarnation
 		"filter-z": func() { _, _ = w.Filter(s.z.Key()) },
+		// a filter for a pod that requests ranges (walks the ranges under the table lock)
+		"filter-ranges": func() { _, _ = w.Filter(s.rg.Key()) },
 		// Preempt runs without the pod's lock: for the re-created z it reads the entries its old incarnation's events write
 		"preempt-z": func() { w.Preempt(s.z.Key()) },
 		// a filter for the pod whose bind is another entry point (the scheduler filtering it again)
@@ -136,7 +142,7 @@ func c19IPAMScenarios(tier string) []*Scenario {
 			out = append(out, mk([]string{names[i], names[j]}))
 		}
 	}
-	for _, pr := range [][]string{{"preempt-z", "unbind"}, {"preempt-z", "resync"}, {"preempt-z", "release"}, {"preempt-z", "reload"}, {"filter-z", "unbind"}, {"filter-z", "resync"}, {"filter-z", "release"}, {"filter-y", "bind"}, {"filter-y", "update-running"}, {"filter-crd-known", "filter-crd-unknown"}, {"filter-crd-unknown", "filter-crd-unknown"}, {"filter-crd-known", "filter-crd-known"},
+	for _, pr := range [][]string{{"filter-ranges", "bind"}, {"filter-ranges", "unbind"}, {"filter-ranges", "reload"}, {"filter-ranges", "release"}, {"filter-ranges", "filter-ranges"}, {"preempt-z", "unbind"}, {"preempt-z", "resync"}, {"preempt-z", "release"}, {"preempt-z", "reload"}, {"filter-z", "unbind"}, {"filter-z", "resync"}, {"filter-z", "release"}, {"filter-y", "bind"}, {"filter-y", "update-running"}, {"filter-crd-known", "filter-crd-unknown"}, {"filter-crd-unknown", "filter-crd-unknown"}, {"filter-crd-known", "filter-crd-known"},
 		{"filter-crd-unknown", "resync"}, {"filter-crd-known", "reload"}, {"filter-crd-unknown", "bind"}} {
 		out = append(out, mk(pr))
 	}
